@@ -66,7 +66,12 @@ func scenarioC08Random(c *Ctx, r *Rng, idx int) {
 		return
 	}
 	s.Timeout = 20 * time.Millisecond
-	w.note("cfg cached=%v loop=%v closable=%v shards=%d", cached, withLoop, closable, shards)
+	var repErr error
+	if closable && r.Chance(35) {
+		repErr = fmt.Errorf("reporter close failed")
+		w.setCloseErr(repErr)
+	}
+	w.note("cfg cached=%v loop=%v closable=%v shards=%d reporter-close-error=%v", cached, withLoop, closable, shards, repErr != nil)
 
 	// K subscopes (+ the root itself), one counter each, created before anything is scheduled
 	k := r.Range(1, 3)
@@ -268,6 +273,16 @@ func scenarioC08Random(c *Ctx, r *Rng, idx int) {
 		return
 	}
 	wr := res[winner]
+	if wr.err != repErr {
+		fail("close-returns-reporter-error", fmt.Sprintf("the reporter's Close returned %v, the winning scope Close returned %v", repErr, wr.err))
+		return
+	}
+	for i, cr := range res {
+		if i != winner && cr.err != nil {
+			fail("close-idempotent", fmt.Sprintf("a Close call that did not close the reporter returned %v", cr.err))
+			return
+		}
+	}
 	for _, ct := range ctrs {
 		n := ct.full
 		if wr.sums[n] < pre[n] || wr.sums[n] > pre[n]+post[n] {
@@ -306,8 +321,13 @@ func scenarioC08Random(c *Ctx, r *Rng, idx int) {
 		return
 	}
 	// later Close calls: nil and silent; scopes obtained afterwards inert; recording on old handles harmless
-	if err := w.closer.Close(); err != nil {
-		fail("close-idempotent", "a later Close returned "+err.Error())
+	if pan, val := catch(func() {
+		if err := w.closer.Close(); err != nil {
+			fail("close-idempotent", "a later Close returned "+err.Error())
+		}
+	}); pan {
+		c.Cov.Fail(Failure{Kind: "crash", Clause: "close-idempotent", Signature: sig, Line: line(), Reply: fmt.Sprintf("a later Close panicked: %v", val)})
+		return
 	}
 	if sc := w.root.SubScope("late"); sc != tally.NoopScope {
 		fail("scopes-after-close-inert", "SubScope after Close returned a live scope")
